@@ -72,7 +72,7 @@ Fixpoint g_block (fuel : nat) (top : bool) (D : tenv) (L : list ident) (ps : lis
                 | None => None
                 end
        | PTuple xs es => if top && tuple_decl_ok D L xs es then Some (D ++ combine xs (map a_ty es)) else None
-       | PBreak => Some D
+       | PBreak | PContinue => Some D
        | PWrite e | PSleep e | PExprS e => if fv_ok D L e then Some D else None
        | PIf c body elifs els =>
            if fv_ok D L c && nested L body
@@ -102,7 +102,7 @@ Fixpoint anns_of (p : pstmt) : list ann :=
   | PIf c b el e => c :: go b ++ gob el ++ go e
   | PWhile c b => c :: go b
   | PFor _ c b => c :: go b
-  | PBreak => []
+  | PBreak | PContinue => []
   end.
 Definition prog_anns (p : pprog) : list ann :=
   flat_map anns_of (p_pre p) ++ match p_main p with Some b => flat_map anns_of b | None => [] end.
